@@ -704,3 +704,19 @@ def _np_any(interp, x, *a, **k):
     if isinstance(x, SArr) and x.kind == "bool":
         return wrap(exists_idx(x.n, lambda kk: x.sel(kk)))
     raise eng.Unsupported("np.any of " + type(x).__name__)
+
+
+@model(np.empty)
+def _empty(interp, shape, dtype=float, **kw):
+    """N-EMPTY: an array of the requested shape with unspecified content"""
+    eng = _eng()
+    if _all_concrete(shape):
+        return np.empty(shape, dtype=dtype, **kw)
+    ctx = interp.ctx
+    if isinstance(shape, tuple) and len(shape) > 1:
+        r = ctx.arr("empty", "elem", n=to_z3(shape[0]), dtype=dtype)
+        r.item_shape = tuple(shape[1:])
+        return r
+    n = shape[0] if isinstance(shape, tuple) else shape
+    k, _ = _kind_val(dtype, 0)
+    return ctx.arr("empty", k, n=to_z3(n), dtype=dtype)
